@@ -130,6 +130,17 @@ Proof.
   intros H1 H2 H3 H4. rewrite psc_unfold, core_spec, H1, H2, H3, H4. reflexivity.
 Qed.
 
+(* the operator route LinearOperator.cholesky(upper) on a dense n x n operator, n <> 1: exactly
+   psd_safe_cholesky(A, upper) with jitter / max_tries from the settings *)
+Lemma op_cholesky_route st d32 dt n A upper : n <> 1 ->
+  (fst (op_cholesky ar chol_ex st d32 dt n A upper), rd (snd (op_cholesky ar chol_ex st d32 dt n A upper)) 0)
+  = psc ar chol_ex st d32 dt n A upper None None.
+Proof.
+  intros Hn. unfold op_cholesky, psc. apply Nat.eqb_neq in Hn. rewrite Hn.
+  unfold psd_safe_cholesky.
+  destruct (_psd_safe_cholesky ar chol_ex st d32 dt [A] 0 None None) as [[L w| |w l|] h]; destruct upper; reflexivity.
+Qed.
+
 End AnyArith.
 
 (* ------------------------------------------------------------------ exact arithmetic *)
